@@ -446,6 +446,191 @@ def run(chk):
         add_cases.append(('isotope-labels', rules([g1]), rules([g2]), rules([g1, g2]), rules([g2, g1]), rules([])))
     chk.oracle('valid_neighbours_additive', add_cases, o_additive, key_fn=lambda c: c[3])
 
+    # ------------------------------------------------------------------ deferred validation x call parameters, x history
+    import inspect
+    SIGS = {name: set(inspect.signature(fn).parameters) for name, fn in
+            (('mass', pt.mass), ('mz', pt.mz), ('comp', pt.comp), ('comp_mass', pt.comp_mass))}
+    FN = {'mass': pt.mass, 'mz': pt.mz, 'comp': pt.comp, 'comp_mass': pt.comp_mass}
+
+    def pcall(name, text, params):
+        """call with the parameters the function knows; ('ok', v) | ('ve', cls) | ('exc', text)"""
+        kw = {k: v for k, v in params.items() if k in SIGS[name]}
+        fn = FN[name]
+        try:
+            return 'ok', L.with_alarm(lambda: fn(text, **kw))
+        except ValueError as e:
+            return 've', type(e).__name__
+        except Exception as e:  # noqa
+            return 'exc', f'{type(e).__name__}: {e}'
+
+    PARAM_VALUES = {'charge': [None, -2, -1, 0, 1, 2], 'ion_type': ['p', 'n', 'b', 'y'], 'monoisotopic': [True, False],
+                    'isotope': [0, 1], 'precision': [None, 3], 'use_isotope_on_mods': [False, True]}
+
+    def one_factor_params():
+        out = [{}]
+        for k, vs in PARAM_VALUES.items():
+            for v in vs[1:]:
+                out.append({k: v})
+        return out
+
+    def random_params(r):
+        return {k: r.choice(vs) for k, vs in PARAM_VALUES.items() if r.random() < 0.7}
+
+    def with_context(text, zstr, label):
+        """put a charge `/z` (if the text has none) and a global isotope label into the string"""
+        t = text
+        if zstr is not None and '/' not in t:
+            t = t + '/%d' % zstr
+        if label:
+            t = '<13C>' + t
+        return t
+
+    def o_params(c):
+        kind, text, without, params = c
+        if kind == 'labile' and params.get('ion_type', 'p') != 'p':
+            return None        # labile modifications are by definition not part of fragment ions (mass_calc: ion_type == 'p')
+        try:
+            pt.parse(text)
+        except ValueError:
+            return None
+        for name in ('mass', 'mz', 'comp', 'comp_mass'):
+            st, val = pcall(name, text, params)
+            if st == 'exc':
+                return f'{name}({text!r}, **{params}) raises {val} (not a ValueError)'
+            if st == 've':
+                continue
+            st_ref, ref = pcall(name, without, params)
+            if st_ref == 'exc':
+                return f'{name}({without!r}, **{params}) raises {ref} (not a ValueError) for a VALID string'
+            if st_ref == 'ok' and (ref == val or (ref != ref and val != val)):
+                return (f'{name}({text!r}, **{params}) = {val!r} equals the value for {without!r}: the unresolvable value '
+                        f'({kind}) is silently counted as zero for these parameters')
+        return None
+
+    pr_cases = []
+    pbads = ['NotAMod', 'Formula:C2H3Qq', 'U:999999', 'Glycan:Foo', '', 'Oxidatio']
+    for kind, mk in KINDS.items():
+        for bad in pbads:
+            if kind == 'labile' and '}' in bad:
+                continue
+            v1 = rng.choice(VALID)
+            for arr in ([bad], [v1, bad]):
+                text, without = mk(arr), mk([m for m in arr if m != bad])
+                combos = one_factor_params() + [random_params(rng) for _ in range(3 if quick else 25)]
+                for prm in combos:
+                    zs = rng.choice([None, None, -2, -1, 0, 1, 2])
+                    lab = rng.random() < 0.3
+                    pr_cases.append((kind, with_context(text, zs, lab), with_context(without, zs, lab), prm))
+    # the adduct group: every charge in the string x every charge argument (a boundary value must not switch validation off)
+    for bad in BAD_ADD:
+        for zs in (-2, -1, 0, 1, 2):
+            for za in (None, -2, -1, 0, 1, 2):
+                for arr in ([bad], ['+Na+', bad]):
+                    good = [x for x in arr if x is not bad]
+                    text = SEQ + '/%d[' % zs + ','.join(arr) + ']'
+                    without = SEQ + '/%d' % zs + ('[' + ','.join(good) + ']' if good else '')
+                    for extra in ({}, {'monoisotopic': False}, {'ion_type': 'b'}, {'ion_type': 'y', 'isotope': 1}):
+                        lab = rng.random() < 0.25
+                        prm = dict(extra)
+                        if za is not None:
+                            prm['charge'] = za
+                        pr_cases.append(('adducts', ('<13C>' if lab else '') + text, ('<13C>' if lab else '') + without, prm))
+    for bad in ISOTOPE_BAD:
+        for prm in one_factor_params():
+            pr_cases.append(('isotope-labels', rules(['13C', bad]), rules(['13C']), prm))
+    for bad in BAD_RULES:
+        for prm in one_factor_params():
+            pr_cases.append(('static-malformed-rule', rules(['[Oxidation]@M', bad]), rules(['[Oxidation]@M']), prm))
+    chk.count('deferred-validation parameter cases', len(pr_cases))
+    chk.oracle('deferred_validation_parameters', pr_cases, o_params, key_fn=lambda c: c[1] + repr(sorted(c[3].items())),
+               nontrivial_fn=lambda c: bool(c[3]))
+
+    # a VALID adduct / label / modification contributes for every parameter combination (nothing is switched off silently)
+    def o_valid_counts(c):
+        kind, text, without, params = c
+        if kind == 'labile' and params.get('ion_type', 'p') != 'p':
+            return None
+        for name in ('mass', 'mz', 'comp'):
+            st, val = pcall(name, text, params)
+            if st == 'exc':
+                return f'{name}({text!r}, **{params}) raises {val} (not a ValueError) for a VALID string'
+            if st == 've':
+                continue
+            st_ref, ref = pcall(name, without, params)
+            if st_ref == 'ok' and ref == val:
+                return f'{name}({text!r}, **{params}) = {val!r} equals the value for {without!r}: a valid {kind} is ignored'
+        return None
+
+    vc_cases = []
+    for zs in (-2, -1, 0, 1, 2):
+        for za in (None, -2, 0, 2):
+            for ion in ('+Na+', '+K+', '+2Na+', '+D+', '+T+', '+Li+'):
+                for extra in ({}, {'monoisotopic': False}):
+                    prm = dict(extra)
+                    if za is not None:
+                        prm['charge'] = za
+                    vc_cases.append(('adduct', SEQ + '/%d[%s]' % (zs, ion), SEQ + '/%d' % zs, prm))
+    for kind, mk in KINDS.items():
+        for prm in one_factor_params():
+            v = rng.choice(['Oxidation', 'Phospho', 'Formula:C2H2O'])
+            vc_cases.append((kind, mk([v]), mk([]), prm))
+    chk.oracle('valid_values_count_for_all_parameters', vc_cases, o_valid_counts,
+               key_fn=lambda c: c[1] + repr(sorted(c[3].items())))
+
+    # non-default flags systematically: every element symbol as adduct ion, every isotope label, formulas with isotopes,
+    # both mass modes: a valid string never raises outside the ValueError family
+    from peptacular.constants import ISOTOPIC_ATOMIC_MASSES as _ISO
+    sweep = []
+    for sym in _ISO:
+        if not sym[0].isdigit():
+            sweep.append(SEQ + '/1[+%s+]' % sym)
+            sweep.append('PEP[Formula:%s2]TIDE' % sym)
+        else:
+            sweep.append('PEP[Formula:[%s2]H2]TIDE' % sym)
+        sweep.append('<%s>%s' % (sym, SEQ))
+    if quick:
+        sweep = sweep[:: 3] + [SEQ + '/1[+D+]', SEQ + '/1[+T+]', '<D>' + SEQ, 'PEP[Formula:D2]TIDE']
+
+    def o_flags(text):
+        for name in ('mass', 'mz', 'comp'):
+            for prm in ({}, {'monoisotopic': False}, {'monoisotopic': False, 'charge': 2}, {'ion_type': 'b', 'charge': 1},
+                        {'use_isotope_on_mods': True}, {'monoisotopic': False, 'precision': 3}):
+                st, val = pcall(name, text, prm)
+                if st == 'exc':
+                    return f'{name}({text!r}, **{prm}) raises {val} (not a ValueError)'
+        return None
+
+    chk.oracle('valid_strings_all_flags', sweep, o_flags)
+
+    # history: the same unresolvable values AFTER a stream of valid calls that share text with them
+    PRIMES = ['#g1(0.01)', '#g1', '#', 'Oxidation#g1', 'Phospho#g1(0.5)', 'Oxidation', 'Phospho', 'UNIMOD:35', 'U:Oxidation',
+              'Formula:C2H3NO', 'Glycan:Hex', '+15.5', 'Obs:+1.5', 'Oxidation|INFO:x', 'INFO:x|Oxidation', 'M:00046', 'MOD:00046']
+    hist_bads = sorted(set(bads + ['', ' ', 'INFO:x', 'oxidation', 'OXIDATION', 'Oxidatio', 'UNIMOD:', 'unimod:35',
+                                   'Formula:', 'formula:C2H3NO', 'glycan:Hex', 'Glycan:hex', 'obs:+1.5', 'INFO:#g1', 'X#g1',
+                                   'NotAMod#g1(0.01)', '#g1x']))
+    for mono in (True, False):
+        for kind, mk in KINDS.items():
+            for v in PRIMES:
+                for name in ('mass', 'comp', 'mz'):
+                    pcall(name, mk([v]), {'monoisotopic': mono})
+            for v in hist_bads:                       # the valid texts the bad value shares a prefix / case with
+                for name in ('mass', 'comp'):
+                    pcall(name, mk([v + '#g1']), {'monoisotopic': mono})
+                    pcall(name, mk(['Oxidation', v]), {'monoisotopic': mono})
+    hs_cases = []
+    for kind, mk in KINDS.items():
+        for bad in hist_bads:
+            if kind == 'labile' and '}' in bad:
+                continue
+            for mono in (True, False):
+                hs_cases.append((kind, mk([bad]), mk([]), {'monoisotopic': mono}))
+                hs_cases.append((kind, mk(['Oxidation', bad]), mk(['Oxidation']), {'monoisotopic': mono}))
+    # '#'-tags and INFO legitimately weigh nothing: keep only values that raise or count in a clean interpreter
+    clean = L.fresh_verdicts([(c[1], c[3]) for c in hs_cases])
+    hs_cases = [c for c, ok in zip(hs_cases, clean) if ok]
+    chk.count('deferred-validation history cases', len(hs_cases))
+    chk.oracle('deferred_validation_after_valid_calls', hs_cases, o_params, key_fn=lambda c: c[1] + repr(c[3]))
+
     chk.rule = (f'exhaustive: every string of <= {depth} tokens over the {len(L.TOKENS)}-token notation alphabet '
                 '(residues P,E; all bracket kinds; ? - + / ^ @ # | : , . ; digits 1,0; the name Oxidation; backslash; space); random strings '
                 'of <= 40 tokens over that alphabet and a wider one (more residues, N-Term, e, _, inf, nan, Formula:, tab, //); single-token '
